@@ -124,6 +124,8 @@ structure SitesOK (k : SymSites) : Prop where
   scan2Cond : ∀ c n, k.scan2Cond c n = decide (c.toNat < n.toNat)
   scan2Local : ∀ b, k.scan2Local b = (b.toNat / 16 == 0)
   both : ∀ f n c, k.both f n c = (decide (f.toNat < n.toNat) && decide (c.toNat < n.toNat))
+  forever : k.forever = true
+  hasCb : k.hasCb true = true
   cbFirst : ∀ f, k.cbFirst f = BitVec.setWidth 64 f
   cbSecond : ∀ c, k.cbSecond c = c
   setInfo : ∀ f, k.setInfo f = f
@@ -171,6 +173,8 @@ theorem sites64_ok : SitesOK sites64 where
     intro f n c
     have hf : f.toNat % 18446744073709551616 = f.toNat := Nat.mod_eq_of_lt (by have := f.isLt; omega)
     simp [sites64, arr64_both, BitVec.ult, hf]
+  forever := rfl
+  hasCb := rfl
   cbFirst := by intro f; rfl
   cbSecond := by intro c; rfl
   setInfo := by intro f; rfl
@@ -209,6 +213,8 @@ theorem sites32_ok : SitesOK sites32 where
     intro f n c
     have hf : f.toNat % 18446744073709551616 = f.toNat := Nat.mod_eq_of_lt (by have := f.isLt; omega)
     simp [sites32, arr32_both, BitVec.ult, hf]
+  forever := rfl
+  hasCb := rfl
   cbFirst := by intro f; rfl
   cbSecond := by intro c; rfl
   setInfo := by intro f; rfl
@@ -447,7 +453,8 @@ theorem loop_refines {σb σa : Type} {k : SymSites} (hk : SitesOK k) (n : Nat)
   | succ fuel ih =>
     intro s d stb sta f hwf hR hf l' sta' r habs
     simp only [Arr.absLoop, table_length] at habs
-    simp only [loop, symbolsNum_toNat hk hwf]
+    simp only [loop, hk.forever, hk.hasCb, Bool.not_true, Bool.false_eq_true, if_false, if_true,
+      symbolsNum_toNat hk hwf]
     obtain ⟨f1, p1, e1, e2, e3, e4⟩ := scan1_refines hk hwf (n + 1) f none (by omega) (by omega) hf
     rw [e1]
     simp only
